@@ -107,33 +107,197 @@ Proof.
   - simpl. destruct ub; [|reflexivity]. destruct (encode_structural false true h1); reflexivity.
 Qed.
 
-Theorem gen_prune_leaves_without_taxa (fuel : nat) (recursive ub su : bool) (h : heap) :
-  (fuel_of h <= fuel)%nat ->
-  prune_leaves_without_taxa recursive ub su h <> HFuel ->
-  to_hres (Tree_prune_leaves_without_taxa HG fuel recursive ub su h) = prune_leaves_without_taxa recursive ub su h.
+(* ---------------------------------------------------------------- the repaired sites
+   HeapOps.v keeps the functions of the unrepaired source (a parentless node gives AttributeError from
+   None.remove_child; prune_nodes without the final suppress / update) and describes the repaired source
+   by `run_op_v` with v_seed_guard / v_prune_nodes_tail: a relabelling AttrErr -> OtherErr of the
+   outcome, and the tail appended.  Here: the functions with the error as a parameter (= HeapOps's for
+   AttrErr), the generated code = them for OtherErr, and they = the relabelled HeapOps functions
+   because nothing else in these functions can produce an AttributeError. *)
+Definition plwt_e (ne : PyPrims.err) (recursive ub su : bool) (h : heap) : hres :=
+  hdo h1 <- leaf_prune_loop (fuel_of h)
+              (fun h nd => match taxon h nd with None => true | Some _ => false end)
+              ne recursive h ;;
+  hdo h2 <- (if su then suppress_unifurcations h1 else HOk h1) ;;
+  ub_tail_su ub su h2.
+
+Definition prune_taxa_e (ne : PyPrims.err) (taxa : list Z) (ub su on_leaves on_internal : bool) (h : heap) : hres :=
+  hdo h1 <- with_sub h (seed h) (fun t => hfold (prune_taxa_step_e ne taxa on_leaves on_internal) (post_ids t) h) ;;
+  plwt_e ne true ub su h1.
+
+Definition prune_nodes_e (ne : PyPrims.err) (nodes : list Z) (plwt ub su : bool) (h : heap) : hres :=
+  hdo h1 <- hfold (remove_from_parent OtherErr) nodes h ;;
+  if plwt then plwt_e ne true ub su h1
+  else hdo h2 <- (if su then suppress_unifurcations h1 else HOk h1) ;; ub_tail_su ub su h2.
+
+Lemma plwt_e_attr rc ub su h : plwt_e AttrErr rc ub su h = prune_leaves_without_taxa rc ub su h.
+Proof. reflexivity. Qed.
+Lemma prune_taxa_e_attr taxa ub su ol oi h : prune_taxa_e AttrErr taxa ub su ol oi h = prune_taxa taxa ub su ol oi h.
+Proof. reflexivity. Qed.
+
+(* ---- no AttributeError from the other steps ---- *)
+Definition noattr (r : hres) : Prop := forall h, r <> HErr AttrErr h.
+Notation relab := (relabel_err AttrErr OtherErr).
+
+Lemma relab_noattr r : noattr r -> relab r = r.
 Proof.
-  intros Hf Hnf. unfold Tree_prune_leaves_without_taxa, prune_leaves_without_taxa in *.
-  match goal with |- context [mwhile fuel ?st ?a0 h] =>
-    destruct (prune_loop_generic st no_taxon AttrErr recursive (fun acc rm => acc ++ rm)) with
-      (f := fuel_of h) (fuel := fuel) (acc := a0) (h := h) as [v E]
-  end.
-  - intros acc s. cbv beta zeta. hsimpp.
-    destruct (abs_at s (seed s)) as [t|]; [|reflexivity].
-    rewrite (collect_loop no_taxon) by (intros x a s0; unfold no_taxon; hsimpp; destruct (taxon s0 x); reflexivity).
-    cbv iota beta. simpl lctl_val. simpl app.
-    rewrite (mfor_hfold _ (remove_from_parent AttrErr))
-      by (intros x s0; unfold Node__get_edge, Edge__get_tail_node; hsimpp; cbv zeta;
-          apply gen_remove_from_parent_body).
-    destruct (hfold (remove_from_parent AttrErr) (filter (no_taxon s) (leaf_ids t)) s); simpl; try reflexivity.
-    destruct (negb (py_is_empty (filter (no_taxon s) (leaf_ids t)))); simpl; [destruct recursive|]; reflexivity.
-  - exact Hf.
-  - intro E. apply Hnf. unfold no_taxon in E. rewrite E. reflexivity.
-  - hsimpp. unfold no_taxon in E. rewrite E.
-    destruct (leaf_prune_loop (fuel_of h) _ AttrErr recursive h) as [h1|e h1|]; simpl lift; simpl hbind; cbv iota;
-      try reflexivity.
-    etransitivity; [exact (f_equal to_hres (prune_finish v su ub h1))|].
-    destruct (hbind _ _); reflexivity.
+  intro N. destruct r as [h|e h|]; try reflexivity. destruct e; try reflexivity. exfalso. exact (N h eq_refl).
 Qed.
+
+Lemma relab_hbind r k : relab (hbind r k) = hbind (relab r) (fun h => relab (k h)).
+Proof. destruct r as [h|e h|]; try reflexivity. simpl. destruct (err_eqb e AttrErr); reflexivity. Qed.
+
+Lemma noattr_hbind r k : noattr r -> (forall h, noattr (k h)) -> noattr (hbind r k).
+Proof. intros Nr Nk. destruct r as [h|e h|]; simpl; [apply Nk|exact Nr|intros h E; discriminate]. Qed.
+
+Lemma noattr_ok h : noattr (HOk h).
+Proof. intros h' E. discriminate. Qed.
+
+Lemma noattr_hfold (f : Z -> heap -> hres) : (forall x h, noattr (f x h)) -> forall l h, noattr (hfold f l h).
+Proof.
+  intro Nf. induction l as [|x r IH]; intro h; simpl; [apply noattr_ok|]. apply noattr_hbind; [apply Nf|exact IH].
+Qed.
+
+Lemma noattr_remove_child_plain p c h : noattr (remove_child_plain p c h).
+Proof. unfold remove_child_plain. destruct (memz c (kids h p)); intros h' E; discriminate. Qed.
+
+Lemma noattr_su_step nd h : noattr (su_step nd h).
+Proof.
+  unfold su_step. destruct (kids h nd) as [|ch [|]]; try apply noattr_ok. cbv zeta.
+  destruct (parent _ nd); [|apply noattr_ok]. destruct (index_of nd _); [|intros h' E; discriminate].
+  apply noattr_hbind; [apply noattr_remove_child_plain|intro; apply noattr_ok].
+Qed.
+
+Lemma noattr_with_sub h i k : (forall t, noattr (k t)) -> noattr (with_sub h i k).
+Proof. intro N. unfold with_sub. destruct (abs_at h i); [apply N|intros h' E; discriminate]. Qed.
+
+Lemma noattr_su h : noattr (suppress_unifurcations h).
+Proof. apply noattr_with_sub. intro t. apply noattr_hfold. apply noattr_su_step. Qed.
+
+Lemma noattr_edge_collapse c adj h : noattr (edge_collapse c adj h).
+Proof.
+  unfold edge_collapse. destruct (parent h c); [|apply noattr_ok]. destruct (kids h c); [intros h' E; discriminate|].
+  destruct (index_of c _); [|intros h' E; discriminate].
+  apply noattr_hbind; [apply noattr_remove_child_plain|intro; apply noattr_ok].
+Qed.
+
+Lemma noattr_cbb su h : noattr (collapse_basal_bifurcation su h).
+Proof.
+  unfold collapse_basal_bifurcation. destruct (kids h (seed h)) as [|c0 [|c1 [|]]]; try apply noattr_ok. cbv zeta.
+  destruct (if 2 <=? len (kids h c1) then Some (c0, c1) else if 2 <=? len (kids h c0) then Some (c1, c0) else None)
+    as [[keep del]|]; [|apply noattr_ok].
+  apply noattr_hbind; [apply noattr_edge_collapse|intro; apply noattr_ok].
+Qed.
+
+Lemma noattr_encode su cb h : noattr (encode_structural su cb h).
+Proof.
+  unfold encode_structural. apply noattr_hbind.
+  - destruct (cb && not_rooted h && (len (kids h (seed h)) =? 2)); [apply noattr_cbb|apply noattr_ok].
+  - intro h1. destruct su; [apply noattr_su|apply noattr_ok].
+Qed.
+
+Lemma noattr_tail (ub su : bool) (h1 : heap) :
+  noattr (hbind (if su then suppress_unifurcations h1 else HOk h1) (fun h2 => ub_tail_su ub su h2)).
+Proof.
+  apply noattr_hbind; [destruct su; [apply noattr_su|apply noattr_ok]|].
+  intro h2. unfold ub_tail_su. destruct ub; [apply noattr_encode|apply noattr_ok].
+Qed.
+
+(* ---- relabelling the unrepaired functions gives the functions with the new error ---- *)
+Lemma relab_remove_from_parent nd h : relab (remove_from_parent AttrErr nd h) = remove_from_parent OtherErr nd h.
+Proof.
+  unfold remove_from_parent. destruct (parent h nd); [|reflexivity]. apply relab_noattr, noattr_remove_child_plain.
+Qed.
+
+Lemma relab_hfold (f g : Z -> heap -> hres) : (forall x h, relab (f x h) = g x h) ->
+  forall l h, relab (hfold f l h) = hfold g l h.
+Proof.
+  intro H. induction l as [|x r IH]; intro h; simpl; [reflexivity|]. rewrite relab_hbind, H.
+  destruct (g x h); simpl; try reflexivity. apply IH.
+Qed.
+
+Lemma hbind_ext r k1 k2 : (forall h, k1 h = k2 h) -> hbind r k1 = hbind r k2.
+Proof. intro H. destruct r; simpl; [apply H|reflexivity|reflexivity]. Qed.
+
+Lemma relab_leaf_prune_loop bad rc : forall f h,
+  relab (leaf_prune_loop f bad AttrErr rc h) = leaf_prune_loop f bad OtherErr rc h.
+Proof.
+  induction f as [|f IH]; intro h; [reflexivity|]. simpl. unfold with_sub.
+  destruct (abs_at h (seed h)) as [t|]; [|reflexivity]. cbv zeta.
+  rewrite relab_hbind, (relab_hfold _ _ relab_remove_from_parent). apply hbind_ext. intro h1.
+  destruct (filter (bad h) (leaf_ids t)); [reflexivity|]. destruct rc; [apply IH|reflexivity].
+Qed.
+
+Lemma relab_plwt rc ub su h : relab (prune_leaves_without_taxa rc ub su h) = plwt_e OtherErr rc ub su h.
+Proof.
+  unfold prune_leaves_without_taxa, plwt_e. rewrite relab_hbind, relab_leaf_prune_loop. apply hbind_ext. intro h1.
+  apply relab_noattr, noattr_tail.
+Qed.
+
+Lemma relab_prune_taxa_step taxa ol oi nd h :
+  relab (prune_taxa_step_e AttrErr taxa ol oi nd h) = prune_taxa_step_e OtherErr taxa ol oi nd h.
+Proof.
+  unfold prune_taxa_step_e. destruct (_ && _); [apply relab_remove_from_parent|reflexivity].
+Qed.
+
+Lemma relab_prune_taxa taxa ub su ol oi h :
+  relab (prune_taxa taxa ub su ol oi h) = prune_taxa_e OtherErr taxa ub su ol oi h.
+Proof.
+  rewrite <- prune_taxa_e_attr. unfold prune_taxa_e. rewrite relab_hbind. unfold with_sub.
+  destruct (abs_at h (seed h)) as [t|]; [|reflexivity].
+  rewrite (relab_hfold _ _ (relab_prune_taxa_step taxa ol oi)). apply hbind_ext. intro h1.
+  rewrite plwt_e_attr. apply relab_plwt.
+Qed.
+
+Lemma noattr_remove_from_parent_other nd h : noattr (remove_from_parent OtherErr nd h).
+Proof.
+  unfold remove_from_parent. destruct (parent h nd); [apply noattr_remove_child_plain|intros h' E; discriminate].
+Qed.
+
+Lemma relab_prune_nodes nodes plwt ub su h :
+  (let r := relab (prune_nodes nodes plwt ub su h) in
+   if negb plwt then hbind r (fun h1 => hbind (if su then suppress_unifurcations h1 else HOk h1) (ub_tail_su ub su)) else r)
+  = prune_nodes_e OtherErr nodes plwt ub su h.
+Proof.
+  cbv zeta. unfold prune_nodes, prune_nodes_e. rewrite relab_hbind.
+  rewrite (relab_noattr (hfold _ nodes h)) by (apply noattr_hfold, noattr_remove_from_parent_other).
+  destruct plwt; cbn [negb].
+  - apply hbind_ext. intro h1. apply relab_plwt.
+  - destruct (hfold (remove_from_parent OtherErr) nodes h); reflexivity.
+Qed.
+
+(* ---- the generated code = the functions with OtherErr ---- *)
+Ltac plwt_proof NE fuel recursive ub su h Hf Hnf :=
+  unfold Tree_prune_leaves_without_taxa, plwt_e in *;
+  match goal with |- context [mwhile fuel ?st ?a0 h] =>
+    destruct (prune_loop_generic st no_taxon NE recursive (fun acc rm => acc ++ rm)) with
+      (f := fuel_of h) (fuel := fuel) (acc := a0) (h := h) as [v E]
+  end;
+  [ intros acc s; cbv beta zeta; hsimpp;
+    destruct (abs_at s (seed s)) as [t|]; [|reflexivity];
+    rewrite (collect_loop no_taxon) by (intros x a s0; unfold no_taxon; hsimpp; destruct (taxon s0 x); reflexivity);
+    cbv iota beta; simpl lctl_val; simpl app;
+    rewrite (mfor_hfold _ (remove_from_parent NE))
+      by (intros x s0; unfold Node__get_edge, Edge__get_tail_node; hsimpp; cbv zeta;
+          apply gen_remove_from_parent_body);
+    destruct (hfold (remove_from_parent NE) (filter (no_taxon s) (leaf_ids t)) s); simpl; try reflexivity;
+    destruct (negb (py_is_empty (filter (no_taxon s) (leaf_ids t)))); simpl; [destruct recursive|]; reflexivity
+  | exact Hf
+  | let E' := fresh "E" in intro E'; apply Hnf; unfold no_taxon in E'; rewrite E'; reflexivity
+  | hsimpp;
+    match goal with E0 : mwhile _ _ _ _ = lift ?v0 _ |- _ =>
+      unfold no_taxon in E0; rewrite E0;
+      destruct (leaf_prune_loop (fuel_of h) _ NE recursive h) as [h1|e h1|]; simpl lift; simpl hbind; cbv iota;
+        try reflexivity;
+      etransitivity; [exact (f_equal to_hres (prune_finish v0 su ub h1))|];
+      destruct (hbind _ _); reflexivity
+    end ].
+
+Theorem gen_plwt_e (fuel : nat) (recursive ub su : bool) (h : heap) :
+  (fuel_of h <= fuel)%nat ->
+  plwt_e OtherErr recursive ub su h <> HFuel ->
+  to_hres (Tree_prune_leaves_without_taxa HG fuel recursive ub su h) = plwt_e OtherErr recursive ub su h.
+Proof. intros Hf Hnf. plwt_proof OtherErr fuel recursive ub su h Hf Hnf. Qed.
 
 Theorem gen_filter_leaf_nodes (fuel : nat) (keep : list Z) (recursive ub su : bool) (h : heap) :
   (fuel_of h <= fuel)%nat ->
@@ -167,82 +331,114 @@ Qed.
 
 Lemma gen_plwt_lift (fuel : nat) (recursive ub su : bool) (h : heap) :
   (fuel_of h <= fuel)%nat ->
-  prune_leaves_without_taxa recursive ub su h <> HFuel ->
-  exists v, Tree_prune_leaves_without_taxa HG fuel recursive ub su h
-            = lift v (prune_leaves_without_taxa recursive ub su h).
+  plwt_e OtherErr recursive ub su h <> HFuel ->
+  exists v, Tree_prune_leaves_without_taxa HG fuel recursive ub su h = lift v (plwt_e OtherErr recursive ub su h).
 Proof.
-  intros Hf Hnf. pose proof (gen_prune_leaves_without_taxa fuel recursive ub su h Hf Hnf) as R.
+  intros Hf Hnf. pose proof (gen_plwt_e fuel recursive ub su h Hf Hnf) as R.
   destruct (Tree_prune_leaves_without_taxa HG fuel recursive ub su h) as [v s|e s|];
-    destruct (prune_leaves_without_taxa recursive ub su h) as [h'|e' h'|]; simpl in R; try discriminate.
+    destruct (plwt_e OtherErr recursive ub su h) as [h'|e' h'|]; simpl in R; try discriminate.
   - inversion R; subst. exists v. reflexivity.
   - inversion R; subst. exists []. reflexivity.
   - exfalso. apply Hnf. reflexivity.
 Qed.
 
-Theorem gen_prune_nodes (fuel : nat) (nodes : list Z) (plwt ub su : bool) (h : heap) :
+Theorem gen_prune_nodes_e (fuel : nat) (nodes : list Z) (plwt ub su : bool) (h : heap) :
   (forall h1, hfold (remove_from_parent OtherErr) nodes h = HOk h1 -> (fuel_of h1 <= fuel)%nat) ->
-  prune_nodes nodes plwt ub su h <> HFuel ->
-  to_hres (Tree_prune_nodes HG fuel nodes plwt ub su h) = prune_nodes nodes plwt ub su h.
+  prune_nodes_e OtherErr nodes plwt ub su h <> HFuel ->
+  to_hres (Tree_prune_nodes HG fuel nodes plwt ub su h) = prune_nodes_e OtherErr nodes plwt ub su h.
 Proof.
-  intros Hf Hnf. unfold Tree_prune_nodes, prune_nodes in *.
+  intros Hf Hnf. unfold Tree_prune_nodes, prune_nodes_e in *.
   rewrite (mfor_hfold _ (remove_from_parent OtherErr))
     by (intros x s0; unfold Node__get_edge, Edge__get_tail_node; hsimpp; cbv zeta;
         apply gen_remove_from_parent_body).
   destruct (hfold (remove_from_parent OtherErr) nodes h) as [h1|e h1|] eqn:Eh; simpl lift; simpl hbind in *; cbv iota;
     try reflexivity.
-  destruct plwt; [|reflexivity].
-  destruct (gen_plwt_lift fuel true ub su h1 (Hf h1 eq_refl) Hnf) as [v ->].
-  destruct (prune_leaves_without_taxa true ub su h1); reflexivity.
+  destruct plwt.
+  - destruct (gen_plwt_lift fuel true ub su h1 (Hf h1 eq_refl) Hnf) as [v ->].
+    destruct (plwt_e OtherErr true ub su h1); reflexivity.
+  - hsimpp. etransitivity; [exact (f_equal to_hres (prune_finish tt su ub h1))|].
+    destruct (hbind _ _); reflexivity.
+Qed.
+
+Theorem gen_prune_taxa_e (fuel : nat) (taxa : list Z) (ub su ol oi : bool) (h : heap) :
+  (forall t h1, abs_at h (seed h) = Some t ->
+                hfold (prune_taxa_step_e OtherErr taxa ol oi) (post_ids t) h = HOk h1 -> (fuel_of h1 <= fuel)%nat) ->
+  prune_taxa_e OtherErr taxa ub su ol oi h <> HFuel ->
+  to_hres (Tree_prune_taxa HG fuel taxa ub su ol oi h) = prune_taxa_e OtherErr taxa ub su ol oi h.
+Proof.
+  intros Hf Hnf. unfold Tree_prune_taxa, prune_taxa_e, with_sub in *. hsimpp. cbv zeta.
+  destruct (abs_at h (seed h)) as [t|]; [|reflexivity].
+  rewrite (mfor_hfold _ (prune_taxa_step_e OtherErr taxa ol oi)).
+  2:{ intros nd s0. unfold prune_taxa_step_e, is_internal, Node__get_edge, Edge__get_tail_node. hsimpp. cbv zeta.
+      pose proof (gen_remove_from_parent_body OtherErr nd s0) as B.
+      destruct oi, ol, (kids s0 nd) as [|k0 kr]; simpl; try reflexivity;
+        destruct (taxon s0 nd) as [x|]; simpl; try reflexivity;
+        rewrite ?py_in_memz; destruct (memz x taxa); simpl; try reflexivity; exact B. }
+  destruct (hfold (prune_taxa_step_e OtherErr taxa ol oi) (post_ids t) h) as [h1|e h1|] eqn:Eh; simpl lift; simpl hbind in *;
+    cbv iota; try reflexivity.
+  destruct (gen_plwt_lift fuel true ub su h1 (Hf t h1 eq_refl Eh) Hnf) as [v ->].
+  destruct (plwt_e OtherErr true ub su h1); reflexivity.
+Qed.
+
+(* ---- against HeapOps.run_op_v for the current source: both repairs present ---- *)
+Definition v_now : variants := mkVariants true true.
+
+Lemma relab_fuel r : relab r <> HFuel -> r <> HFuel.
+Proof. intros H E. apply H. rewrite E. reflexivity. Qed.
+
+Theorem gen_prune_leaves_without_taxa (fuel : nat) (recursive ub su : bool) (h : heap) :
+  (fuel_of h <= fuel)%nat ->
+  run_op_v v_now (OPruneLeavesWithoutTaxa recursive ub su) h <> HFuel ->
+  to_hres (Tree_prune_leaves_without_taxa HG fuel recursive ub su h)
+  = run_op_v v_now (OPruneLeavesWithoutTaxa recursive ub su) h.
+Proof.
+  cbn [run_op_v v_now v_seed_guard run_op]. rewrite relab_plwt. apply gen_plwt_e.
+Qed.
+
+Theorem gen_prune_nodes (fuel : nat) (nodes : list Z) (plwt ub su : bool) (h : heap) :
+  (forall h1, hfold (remove_from_parent OtherErr) nodes h = HOk h1 -> (fuel_of h1 <= fuel)%nat) ->
+  run_op_v v_now (OPruneNodes nodes plwt ub su) h <> HFuel ->
+  to_hres (Tree_prune_nodes HG fuel nodes plwt ub su h) = run_op_v v_now (OPruneNodes nodes plwt ub su) h.
+Proof.
+  assert (E : run_op_v v_now (OPruneNodes nodes plwt ub su) h = prune_nodes_e OtherErr nodes plwt ub su h)
+    by (etransitivity; [|apply relab_prune_nodes]; reflexivity).
+  rewrite E. apply gen_prune_nodes_e.
 Qed.
 
 Theorem gen_prune_taxa (fuel : nat) (taxa : list Z) (ub su ol oi : bool) (h : heap) :
   (forall t h1, abs_at h (seed h) = Some t ->
-                hfold (prune_taxa_step taxa ol oi) (post_ids t) h = HOk h1 -> (fuel_of h1 <= fuel)%nat) ->
-  prune_taxa taxa ub su ol oi h <> HFuel ->
-  to_hres (Tree_prune_taxa HG fuel taxa ub su ol oi h) = prune_taxa taxa ub su ol oi h.
+                hfold (prune_taxa_step_e OtherErr taxa ol oi) (post_ids t) h = HOk h1 -> (fuel_of h1 <= fuel)%nat) ->
+  run_op_v v_now (OPruneTaxa taxa ub su ol oi) h <> HFuel ->
+  to_hres (Tree_prune_taxa HG fuel taxa ub su ol oi h) = run_op_v v_now (OPruneTaxa taxa ub su ol oi) h.
 Proof.
-  intros Hf Hnf. unfold Tree_prune_taxa, prune_taxa, with_sub in *. hsimpp. cbv zeta.
-  destruct (abs_at h (seed h)) as [t|]; [|reflexivity].
-  rewrite (mfor_hfold _ (prune_taxa_step taxa ol oi)).
-  2:{ intros nd s0. unfold prune_taxa_step, is_internal, Node__get_edge, Edge__get_tail_node. hsimpp. cbv zeta.
-      pose proof (gen_remove_from_parent_body AttrErr nd s0) as B.
-      destruct oi, ol, (kids s0 nd) as [|k0 kr]; simpl; try reflexivity;
-        destruct (taxon s0 nd) as [x|]; simpl; try reflexivity;
-        rewrite ?py_in_memz; destruct (memz x taxa); simpl; try reflexivity; exact B. }
-  change (fun nd h0 => if ((oi && is_internal h0 nd) || (ol && negb (is_internal h0 nd)))
-                          && match taxon h0 nd with Some x => memz x taxa | None => false end
-                       then remove_from_parent AttrErr nd h0 else HOk h0)
-    with (prune_taxa_step taxa ol oi) in *.
-  destruct (hfold (prune_taxa_step taxa ol oi) (post_ids t) h) as [h1|e h1|] eqn:Eh; simpl lift; simpl hbind in *;
-    cbv iota; try reflexivity.
-  destruct (gen_plwt_lift fuel true ub su h1 (Hf t h1 eq_refl Eh) Hnf) as [v ->].
-  destruct (prune_leaves_without_taxa true ub su h1); reflexivity.
+  cbn [run_op_v v_now v_seed_guard run_op]. rewrite relab_prune_taxa. apply gen_prune_taxa_e.
 Qed.
 
 Lemma gen_prune_taxa_lift (fuel : nat) (taxa : list Z) (ub su ol oi : bool) (h : heap) :
   (forall t h1, abs_at h (seed h) = Some t ->
-                hfold (prune_taxa_step taxa ol oi) (post_ids t) h = HOk h1 -> (fuel_of h1 <= fuel)%nat) ->
-  prune_taxa taxa ub su ol oi h <> HFuel ->
-  Tree_prune_taxa HG fuel taxa ub su ol oi h = lift tt (prune_taxa taxa ub su ol oi h).
+                hfold (prune_taxa_step_e OtherErr taxa ol oi) (post_ids t) h = HOk h1 -> (fuel_of h1 <= fuel)%nat) ->
+  prune_taxa_e OtherErr taxa ub su ol oi h <> HFuel ->
+  Tree_prune_taxa HG fuel taxa ub su ol oi h = lift tt (prune_taxa_e OtherErr taxa ub su ol oi h).
 Proof.
-  intros Hf Hnf. pose proof (gen_prune_taxa fuel taxa ub su ol oi h Hf Hnf) as R.
+  intros Hf Hnf. pose proof (gen_prune_taxa_e fuel taxa ub su ol oi h Hf Hnf) as R.
   destruct (Tree_prune_taxa HG fuel taxa ub su ol oi h) as [[] s|e s|];
-    destruct (prune_taxa taxa ub su ol oi h) as [h'|e' h'|]; simpl in R; try discriminate;
+    destruct (prune_taxa_e OtherErr taxa ub su ol oi h) as [h'|e' h'|]; simpl in R; try discriminate;
     try (inversion R; subst; reflexivity); try (exfalso; apply Hnf; reflexivity).
 Qed.
 
 Theorem gen_retain_taxa (fuel : nat) (namespace taxa : list Z) (ub su : bool) (h : heap) :
   (forall t h1, abs_at h (seed h) = Some t ->
-                hfold (prune_taxa_step (filter (fun x => negb (memz x taxa)) namespace) true false) (post_ids t) h = HOk h1 ->
+                hfold (prune_taxa_step_e OtherErr (filter (fun x => negb (memz x taxa)) namespace) true false) (post_ids t) h = HOk h1 ->
                 (fuel_of h1 <= fuel)%nat) ->
-  retain_taxa namespace taxa ub su h <> HFuel ->
-  to_hres (Tree_retain_taxa HG fuel namespace taxa ub su h) = retain_taxa namespace taxa ub su h.
+  run_op_v v_now (ORetainTaxa namespace taxa ub su) h <> HFuel ->
+  to_hres (Tree_retain_taxa HG fuel namespace taxa ub su h) = run_op_v v_now (ORetainTaxa namespace taxa ub su) h.
 Proof.
-  intros Hf Hnf. unfold Tree_retain_taxa, retain_taxa in *. cbv zeta.
+  cbn [run_op_v v_now v_seed_guard run_op]. unfold retain_taxa. rewrite relab_prune_taxa.
+  intros Hf Hnf. unfold Tree_retain_taxa. cbv zeta.
   assert (Ef : filter (fun t => negb (py_in Z.eqb t taxa)) namespace = filter (fun x => negb (memz x taxa)) namespace)
     by (apply filter_ext; intro x; rewrite py_in_memz; reflexivity).
   rewrite Ef, (gen_prune_taxa_lift fuel _ ub su true false h Hf Hnf).
-  destruct (prune_taxa _ ub su true false h); reflexivity.
+  destruct (prune_taxa_e _ _ ub su true false h); reflexivity.
 Qed.
 
 (* the *_with_labels wrappers resolve the labels through the namespace (TaxonNamespace.get_taxa: C10)
